@@ -6,6 +6,30 @@ ROOT = engine.ROOT
 ALL = ["C%02d" % i for i in range(1, 21)]
 
 
+TECH = {
+    "C01": "property-based testing (Hypothesis): generated multi-pass programs, marker-byte + mini-decoder oracle, pass-cycle hook, extra-pass differential",
+    "C02": "property-based testing (Hypothesis): generated good/error/warning/fatal line mixes x options against a diagnostic-count model",
+    "C03": "fuzzing: Hypothesis grammar/mutation generators on the ASan build + libFuzzer in-process targets for the tools; sanitizer/signal/status/CPU-time judge",
+    "C04": "property-based testing (Hypothesis): model-directed data programs, independent code-file reader + address model",
+    "C05": "property-based testing (Hypothesis): synthetic code files x p2bin options against a reference image",
+    "C06": "property-based testing (Hypothesis): synthetic code files x p2hex formats/options, independent hex decoders verifying checksums, round trip to the byte map",
+    "C07": "property-based testing (Hypothesis): record-sequence conservation for pbind, table-grammar oracle for plist",
+    "C08": "property-based testing (Hypothesis): typed expression trees in every notation against a reference evaluator (batched)",
+    "C09": "property-based testing (Hypothesis): data statements x targets against reference encoders (int.to_bytes, struct, Fraction)",
+    "C10": "property-based testing (Hypothesis): model-directed ORG/PHASE/SEGMENT/SAVE/STRUCT sequences against an address state machine",
+    "C11": "property-based testing (Hypothesis): construct program vs generator-made hand expansion (differential on code files)",
+    "C12": "property-based testing: exhaustive enumeration of small conditional skeletons + Hypothesis-sampled larger ones against a skeleton interpreter",
+    "C13": "property-based testing (Hypothesis): section trees and reference forms against a scope resolver written from the manual",
+    "C14": "property-based testing (Hypothesis) over complete instruction-form tables against independent reference encoders",
+    "C15": "property-based testing (Hypothesis): round trip asl -> dasl -> asl on generated instruction streams",
+    "C16": "property-based testing (Hypothesis): metamorphic spelling rewrites of the golden corpus anchored on the recorded .ori images",
+    "C17": "property-based testing (Hypothesis): differential over report-option subsets / placement / language / cwd; idempotence of reports",
+    "C18": "property-based testing (Hypothesis): multi-file runs vs single-file runs (differential), covering design over the corpus",
+    "C19": "property-based testing (Hypothesis): independent listing/MAP/share parsers joined with the code file and the emission-trace hook",
+    "C20": "property-based testing (Hypothesis): faults planted at known positions vs parsed diagnostic positions",
+}
+
+
 def main():
     props = {json.loads(l)["id"]: json.loads(l) for l in open(os.path.join(ROOT, "properties.jsonl"))}
     checks, na = [], []
@@ -33,7 +57,7 @@ def main():
             level_note=getattr(mod, "LEVEL_NOTE", "trusted: the reference model in the check module, the "
                                "independent code-file reader vf/pfile.py, Python arithmetic; "
                                "binaries rebuilt from /repo's working tree with -DASL_VERIF"),
-            technique=getattr(mod, "TECHNIQUE", "property-based testing (Hypothesis) with a reference-model oracle"),
+            technique=getattr(mod, "TECHNIQUE", TECH.get(cid, "property-based testing (Hypothesis) with a reference-model oracle")),
         ))
     hooks_commits = []
     hp = os.path.join(ROOT, "HOOK_COMMITS.txt")
